@@ -14,9 +14,12 @@ LEVEL = "proof"
 DOMAINS = ['Design']
 
 
-def fails(p, strat, exc):
+def fails(p, strat, exc, n=3):
+    if exc == "Timeout":
+        r = ir.synthesize_isolated(p, n, strat, timeout=20)
+        return r[0] == "crash" and r[1] == "timeout"
     r = ir.synthesize_isolated(p, 3, strat)
-    return (r[0] == "error" and r[1] == exc) or (r[0] == "crash" and exc == "process-terminated")
+    return (r[0] == "error" and r[1] == exc) or (r[0] == "crash" and exc in ("process-terminated", "ProcessTerminated"))
 
 
 def run(ctx, res):
@@ -28,10 +31,16 @@ def run(ctx, res):
             continue
         _design.sample_case(res, r)
         for s, rr in r["real"].items():
+            if rr["status"] != "ok" and rr["exc"] == "Timeout":
+                # no result within the harness's time limit: slow is not an internal error (whether the
+                # exhausting loop of RandomGen ends at all is decided by the C06 check); counted only
+                res.extra["timeouts_inconclusive"] = res.extra.get("timeouts_inconclusive", 0) + 1
+                continue
             res.layer("outcome-" + s, rr["status"] == "ok")
             if rr["status"] != "ok":
                 exc = rr["exc"]
-                _design.report(res, "exc:%s:%s" % (s, exc), r, lambda p, s=s, exc=exc: fails(p, s, exc),
+                _design.report(res, "exc:%s:%s" % (s, exc), r,
+                               lambda p, s=s, exc=exc, n=r.get("requested", 3): fails(p, s, exc, n),
                                "%s raised %s (%s)" % (s, exc, (rr.get("msg") or "")[:80]))
         # the uniform samplers on a sample of the programs (slower)
         if nextra < (25 if ctx.quick else 200) and r.get("oracle"):
